@@ -855,6 +855,7 @@ class Engine:
             # values created while evaluating the generic element (e.g. the result of .index, max) are chosen per element: they become
             # Skolem functions of k, and their defining constraints (part of the branch conditions) are asserted for every k
             sk_terms = [t for cond, c, v in branches for t in (cond, c, getattr(v, "t", None))] + dropped
+            dropped_feasible = any(not z3.is_false(z3.simplify(d)) for d in dropped)
             consts, funs = fresh_since(mark, sk_terms)
             if funs:
                 raise OutOfSubset("comprehension element defines a quantified value (nested filter/comprehension)")
@@ -881,7 +882,8 @@ class Engine:
             for cond, _, v in reversed(branches[:-1]):
                 val = z3.If(cond, v.t, val)
             r = fresh("cmp", z3.ArraySort(I, sort_of(ek)))
-            if not g.ifs:
+            trivially_kept = bool(g.ifs) and not dropped_feasible and all(z3.is_true(z3.simplify(c)) for _, c, _ in branches)
+            if not g.ifs or trivially_kept:
                 p1.pc.append(z3.ForAll([k], z3.Implies(z3.And(0 <= k, k < xs.n), z3.Select(r, k) == val)))
                 yield SSeq(r, xs.n, ek, "list"), p1
             else:
